@@ -62,7 +62,7 @@ def main() -> None:
     d = d.replace("(argparse → files → `black` subprocess → exit status): only its deciding\nkernels are checked.",
                   "(argparse → files → `black` → exit status) cannot be *traced*: as built, the whole\nCLI is run natively on solver-chosen inputs (C17, see 0A.2).")
     d = d.replace("**Known state of the pinned tree.** Design probes already reproduced genuine\nviolations of C01, C03, C04/C13, C05, C08, C11, C12, C16, C17, C18, C19 (list in\n§6). They are defects of the library, not of the checks; each will be either\nrepaired by one minimal `fix:` commit or recorded in\n`/verif/known_findings.json` (mechanism in §2.7).",
-                  "**State of the tree.** The checks found 23 genuine defects on the pinned tree; all were repaired by\nminimal `fix:` commits (0A.5). Two further genuine defects are recorded as known findings (0A.6).")
+                  "**State of the tree.** The checks found 23 genuine defects on the pinned tree; all were repaired by\nminimal `fix:` commits (0A.5). Three further genuine defects are recorded as known findings (0A.6).")
     new4 = T("sec4_new.md")
     parts = {}
     for name in ("C15", "C16", "C17", "C19"):
